@@ -619,7 +619,6 @@ func c02IncDec(w *World, r *Report) {
 	}
 }
 
-
 // c02ConfigGetters: each duration getter of the concurrent strategy's
 // configuration converts its OWN field (seconds) and two getters never read
 // the same field.
